@@ -8,32 +8,51 @@ from harness.common import *
 import vlib
 
 LEVEL_TEXT = ('Lean 4 theorems, for all shapes/offsets/data: extent queries = sets of pixel coordinates; product = pointwise product of '
-              'embeddings; merge = sum; reduce terminates (fuel = number of fields), preserves the total and yields pairwise '
-              'non-overlapping fields; boundary = bounding box (max side never below 0); insert adds exactly '
-              'the part of the embedding inside the target; the NumPy slice pairs of product and insert are in range and of equal shape. Index arithmetic is regenerated from extent.py/field.py on every run; '
-              'the NumPy array plumbing is a hand model checked against the implementation on exact Gaussian-integer data.')
-LEVEL_NOTE = ('Trusted: Lean kernel, py2lean subset semantics, NumPy slicing/broadcast semantics as modelled in Model/Field.lean, '
-              'generator coverage of the correspondence. Scope: collections whose bounding box is the single origin pixel are '
-              'excluded from merge/reduce (NumPy raises); two one-element fields multiply only at equal offsets (documented rule).')
+              'embeddings; merge = sum (also for 0-d fields at the origin); reduce terminates (fuel = number of fields), preserves the '
+              'total and yields pairwise non-overlapping fields — unconditionally for collections of 0-d fields; boundary = bounding '
+              'box (max side never below 0); public merge/overlap = refusal rule + _merge / extent test + reduce count; insert adds '
+              'exactly the part of the embedding inside the target; the NumPy slice pairs of product and insert are in range and of '
+              'equal shape. Index arithmetic is regenerated from extent.py/field.py on every run; the NumPy array plumbing is a hand '
+              'model checked against the implementation on exact Gaussian-integer data, with operand snapshots (inputs byte-identical '
+              'afterwards, results share no memory with operands, same call twice = same answer).')
+LEVEL_NOTE = ('Trusted: Lean kernel, py2lean subset semantics, NumPy slicing/broadcast semantics as modelled in Model/Field.lean and '
+              'Model/FieldZ.lean, generator coverage of the correspondence. Scope: a (1,1)-array member in a group whose box is the '
+              'single origin pixel makes _merge raise (NumPy); two one-element fields multiply only at equal offsets (documented '
+              'rule, a scope cut of the literal statement: mul_scalar_scalar_sem_partial); insert places a one-element (1,1) field as '
+              'one pixel, not as an infinite constant, and refuses 0-d data with ValueError; the empty product is the object '
+              'Field(data=[]) whose cached extent is (0,0,0,0) — the model treats it as the zero field (recorded under "empty" in the '
+              'implementation output, not judged).')
 TECHNIQUE = 'Lean 4 proof (omega/induction) over translator-regenerated index kernel + hand model with differential correspondence'
-GEN = ['Extent', 'FieldIdx']
+GEN = ['Extent', 'FieldIdx', 'FieldMerge']
 OPS = ['C06']
 RULE = ('cases: extent pairs, bounding boxes (boundary) of 1..5 fields incl. wholly negative, field products (array/array, '
-        'scalar/array, scalar/scalar), merges, reduces of 1..6 fields, inserts into targets 1..8 drawn by category (inside / '
-        'clipped on the top, bottom, left or right side / corner or two-sided clipping / wholly outside on each side / uniform '
-        'offsets in [-9,9]); data = small Gaussian integers; thorough adds two exhaustive enumerations: every insert with field '
-        'shape <= 3x3, offset in [-4,4]^2, target <= 4x4 (11 664 cases), and every extent pair a = shape <= 5x5 at the origin '
-        '(plus four shifted copies), b = shape <= 5x5 at offset in [-6,6]^2; corpus: the D20 witnesses (fields wholly outside) '
-        'run first. distinct = canonical (kind, shapes, offsets) signature; non-trivial = extents overlap partially / clipping '
-        'on some side / more than one group, i.e. not the all-inside-or-identity case')
-TRUSTED = ['NumPy slicing/broadcasting semantics for data[slice] * data[slice] and out[slice] += data (modelled by hand in Model/Field.lean)']
-UNPROVEN = []
-ASSUMPTIONS = ['merge/reduce are stated for collections whose bounding box is not the single origin pixel (NumPy raises there); '
+        'scalar/array, scalar/scalar, 0-d), merges (_merge and public merge with both enforce_overlap values, equal/different '
+        'pixelscale), reduces of 1..6 fields, public overlap of 1..6 fields, each with 0-d members, one-element fields at the '
+        'origin (0-d and (1,1)), collections whose FIRST field spans the whole bounding box or with identical extents; inserts into '
+        'targets 1..8 drawn by category (inside / clipped on the top, bottom, left or right side / corner or two-sided clipping / '
+        'wholly outside on each side / uniform offsets in [-9,9] / 0-d field); data = small Gaussian integers; every '
+        'mul/merge/reduce/insert is run twice on the same operand objects with byte snapshots around it. thorough adds two '
+        'exhaustive enumerations: every insert with field shape <= 3x3, offset in [-4,4]^2, target <= 4x4 (11 664 cases), and every '
+        'extent pair a = shape <= 5x5 at the origin (plus four shifted copies), b = shape <= 5x5 at offset in [-6,6]^2; corpus: D20 '
+        'witnesses (fields wholly outside), the 0-d merge witness fixed by 5cccd0c, spanning-first-field collections, run first. '
+        'distinct = canonical (kind, shapes, offsets) signature; non-trivial = extents overlap partially / clipping on some side / '
+        'more than one group, i.e. not the all-inside-or-identity case')
+TRUSTED = ['NumPy slicing/broadcasting semantics for data[slice] * data[slice], out[slice] += data and out[...] += 0-d data '
+           '(modelled by hand in Model/Field.lean, Model/FieldZ.lean)']
+UNPROVEN = ['product of two one-element fields at DIFFERENT offsets: the code returns the empty product (documented rule of '
+            'Field.__mul__), not the product of two infinite constants; mul_scalar_scalar_sem_partial proves the literal reading only '
+            'for equal offsets']
+ASSUMPTIONS = ['merge/reduce raise (model: none) exactly when a group whose bounding box is the single origin pixel contains a '
+               '(1,1)-array member (mergeZ_defined_iff); collections of 0-d fields never raise (reduceZ_all0d_defined)',
                'the product of two one-element fields follows the documented rule: empty unless the offsets are equal',
-               'reduce_disjoint / reduce_total: input fields of positive shape and every element of the model result is a field '
-               '(no merged group has the single origin pixel as its box); the fields of a merged group occupy boundary() of the '
-               'group, which reaches up to row/column 0 even for wholly negative members (boundary_is_bbox_general states this '
-               'caveat; boundary_is_bbox is the exact bounding box when some member reaches row >= 0 and column >= 0)']
+               'reduce_disjoint / reduce_total (and the 0-d aware reduceZ_*): input fields of positive shape and every element of '
+               'the model result is a field; the fields of a merged group occupy boundary() of the group, which reaches up to '
+               'row/column 0 even for wholly negative members (boundary_is_bbox_general states this caveat; boundary_is_bbox is the '
+               'exact bounding box when some member reaches row >= 0 and column >= 0)',
+               'insert_emb uses the one-pixel embedding (emb), not the infinite-constant reading (sem), for a one-element (1,1) '
+               'field; insert of 0-d data is refused by the implementation (ValueError) and is outside the theorems',
+               'pixelscale/tilt bookkeeping of Field is not modelled; the harness checks only that merge refuses different '
+               'pixelscales and keeps a common one']
 
 def _field(rng, kmax=5, omax=6, allow_one=True, zero_d=False):
     shape = pick_shape(rng, kmax, allow_one)
@@ -43,7 +62,7 @@ def _field(rng, kmax=5, omax=6, allow_one=True, zero_d=False):
     return gi_field(rng, shape, off)
 
 def generate(rng, tier):
-    n = {'quick': 2000, 'thorough': 20000, 'search': 3000}[tier]
+    n = {'quick': 3000, 'thorough': 20000, 'search': 3000}[tier]
     out = []
     for k in range(n):
         t = k % 10
@@ -65,16 +84,37 @@ def generate(rng, tier):
                 b['off'] = [a['off'][0] + int(rng.integers(-2, 3)), a['off'][1] + int(rng.integers(-2, 3))]
             out.append({'kind': 'mul', 'a': a, 'b': b})
         elif t in (4, 5):
-            m = int(rng.integers(2, 5))
-            fs = [_field(rng, allow_one=(rng.integers(0, 3) == 0), omax=4) for _ in range(m)]
-            out.append({'kind': 'merge', 'fields': fs})
+            r = int(rng.integers(0, 10))
+            if r <= 1: fs = _spanning(rng, int(rng.integers(2, 5)))           # first field spans the whole box / identical extents
+            elif r == 2: fs = _origin_ones(rng, int(rng.integers(1, 4)))      # one-element fields at the origin (0-d and (1,1))
+            else:
+                m = int(rng.integers(2, 5))
+                fs = [_field(rng, allow_one=(rng.integers(0, 3) == 0), omax=4, zero_d=True) for _ in range(m)]
+            if k % 20 == 15:                                            # public merge(a, b, enforce_overlap)
+                fs = fs[:2] if len(fs) >= 2 else fs + [_field(rng, omax=2)]
+                c = {'kind': 'merge_public', 'fields': fs, 'enforce': bool(rng.integers(0, 2))}
+                if rng.integers(0, 4) == 0: c['ps'] = [int(rng.integers(1, 3)), int(rng.integers(1, 3))]
+                out.append(c)
+            else:
+                out.append({'kind': 'merge', 'fields': fs})
         elif t in (6, 7):
             m = int(rng.integers(1, 7))
             om = int(rng.integers(2, 9))
-            fs = [_field(rng, kmax=4, omax=om, allow_one=(rng.integers(0, 3) == 0)) for _ in range(m)]
-            if rng.integers(0, 3) == 0:          # wholly negative extents
-                for f in fs: f['off'] = [-abs(f['off'][0]) - 4, -abs(f['off'][1]) - 4]
-            out.append({'kind': 'reduce', 'fields': fs})
+            r = int(rng.integers(0, 10))
+            if r <= 1:                                                        # a spanning group plus bystanders
+                fs = _spanning(rng, int(rng.integers(2, 4))) + [_field(rng, kmax=3, omax=9) for _ in range(int(rng.integers(0, 3)))]
+                if rng.integers(0, 2): fs = [fs[-1]] + fs[:-1]
+            elif r == 2:                                                      # one-element fields at the origin among others
+                fs = _origin_ones(rng, int(rng.integers(1, 4))) + [_field(rng, kmax=3, omax=om, zero_d=True) for _ in range(int(rng.integers(0, 3)))]
+                fs = [fs[i] for i in rng.permutation(len(fs))]
+            else:
+                fs = [_field(rng, kmax=4, omax=om, allow_one=(rng.integers(0, 3) == 0), zero_d=True) for _ in range(m)]
+                if rng.integers(0, 3) == 0:          # wholly negative extents
+                    for f in fs: f['off'] = [-abs(f['off'][0]) - 4, -abs(f['off'][1]) - 4]
+            if k % 20 == 17:                                             # public overlap(fields)
+                out.append({'kind': 'overlap', 'fields': fs if rng.integers(0, 3) else fs[:2]})
+            else:
+                out.append({'kind': 'reduce', 'fields': fs})
         else:
             out.append(_insert_case(rng))
     if tier == 'thorough':
@@ -82,6 +122,34 @@ def generate(rng, tier):
     return out
 
 _SIDES = ('top', 'bottom', 'left', 'right')
+
+def _spanning(rng, m):
+    """m fields of which the FIRST spans the bounding box of all (big field, the others wholly inside it; sometimes identical
+    extents): what an in-place "optimisation" of _merge corrupts. boundary() never returns rmax/cmax < 0, so the big field
+    must reach row/column >= 0 for its extent to be the whole box."""
+    h, w = int(rng.integers(2, 8)), int(rng.integers(2, 8))
+    e = None
+    while e is None or e[1] < 0 or e[3] < 0:
+        off = [int(x) for x in rng.integers(-5, 6, 2)]
+        e = ext_of((h, w), off)
+    fs = [gi_field(rng, (h, w), off)]
+    for _ in range(m - 1):
+        if rng.integers(0, 4) == 0: fs.append(gi_field(rng, (h, w), off)); continue      # identical extent
+        hh, ww = int(rng.integers(1, h + 1)), int(rng.integers(1, w + 1))
+        rmin = int(rng.integers(e[0], e[1] - hh + 2)); cmin = int(rng.integers(e[2], e[3] - ww + 2))
+        f = gi_field(rng, (hh, ww), (rmin + hh // 2, cmin + ww // 2))
+        if (hh, ww) == (1, 1) and rng.integers(0, 2): f['shape'] = []
+        fs.append(f)
+    return fs
+
+def _origin_ones(rng, m):
+    """m one-element fields at offset (0, 0): 0-d data (what Wavefront.__init__ creates) and, sometimes, (1, 1) arrays"""
+    fs = []
+    for _ in range(m):
+        f = gi_field(rng, (1, 1), (0, 0))
+        if rng.integers(0, 4): f['shape'] = []
+        fs.append(f)
+    return fs
 
 def _axis_pos(rng, n, t0, t1, how):
     """first coordinate (rmin or cmin) of a length-n interval relative to the target interval [t0,t1]:
@@ -125,6 +193,7 @@ def _insert_case(rng):
         rmin = _axis_pos(rng, h, te[0], te[1], hr); cmin = _axis_pos(rng, w, te[2], te[3], hc)
         off = [rmin + h // 2, cmin + w // 2]
     f = gi_field(rng, (h, w), off)
+    if (h, w) == (1, 1) and rng.integers(0, 3) == 0: f['shape'] = []       # 0-d data: insert refuses it (documented scope)
     o = gi_field(rng, (S0, S1), (0, 0))
     return {'kind': 'insert', 'field': f, 'out': o, 'weight': int(rng.integers(-2, 4)), 'intensity': bool(rng.integers(0, 2))}
 
@@ -173,7 +242,8 @@ def signature(c):
     k = c['kind']
     if k == 'extent': return f"extent {c['a']} {c['b']}"
     if k == 'mul': return f"mul {c['a']['shape']}@{c['a']['off']} {c['b']['shape']}@{c['b']['off']}"
-    if k in ('merge', 'reduce', 'boundary'): return k + ' ' + ' '.join(f"{f['shape']}@{f['off']}" for f in c['fields'])
+    if k in ('merge', 'reduce', 'boundary', 'overlap'): return k + ' ' + ' '.join(f"{f['shape']}@{f['off']}" for f in c['fields'])
+    if k == 'merge_public': return f"merge_public {c['enforce']} {c.get('ps')} " + ' '.join(f"{f['shape']}@{f['off']}" for f in c['fields'])
     return f"insert {c['field']['shape']}@{c['field']['off']} -> {c['out']['shape']} i={c['intensity']}"
 
 def _overlap(ea, eb):
@@ -184,7 +254,7 @@ def nontrivial(c):
     if k == 'extent': return c['a'] != c['b']
     if k == 'mul':
         return True
-    if k in ('merge', 'reduce', 'boundary'): return len(c['fields']) > 1
+    if k in ('merge', 'reduce', 'boundary', 'overlap', 'merge_public'): return len(c['fields']) > 1
     f, o = c['field'], c['out']
     return not (f['shape'] == o['shape'] and f['off'] == [0, 0])
 
@@ -217,13 +287,65 @@ def tags(c):
         es = [ext_of(f['shape'], f['off']) for f in c['fields']]
         if max(e[1] for e in es) < 0 or max(e[3] for e in es) < 0: t.append('boundary:negative-side')
     if k == 'reduce': t.append(f"reduce:n={len(c['fields'])}")
+    if k in ('merge', 'reduce', 'merge_public', 'overlap'):
+        fs = c['fields']; es = [ext_of(f['shape'], f['off']) for f in fs]
+        if any(len(f['shape']) < 2 for f in fs): t.append(k + ':has-0d')
+        if sum(e == (0, 0, 0, 0) for e in es) >= 2: t.append(k + ':origin-ones>=2')
+        if len(fs) > 1:
+            box = (min(e[0] for e in es), max(0, max(e[1] for e in es)), min(e[2] for e in es), max(0, max(e[3] for e in es)))
+            if es[0] == box: t.append(k + ':first-spans-box')
+            if len(set(es)) < len(es): t.append(k + ':identical-extents')
+    if k == 'merge_public':
+        t.append('merge_public:enforce' if c['enforce'] else 'merge_public:no-enforce')
+        if not _overlap(*[ext_of(f['shape'], f['off']) for f in c['fields']]): t.append('merge_public:disjoint')
+        if c.get('ps') and c['ps'][0] != c['ps'][1]: t.append('merge_public:pixelscale-differs')
+    if k == 'overlap': t.append('overlap:n=2' if len(c['fields']) == 2 else 'overlap:n!=2')
+    if k == 'insert' and len(c['field']['shape']) < 2: t.append('insert:0d-field')
     return t
 
 # ------------------------------------------------------------------------------------------ implementation
-def _F(f):
+def _F(f, ps=None):
     import lentil
     from lentil.field import Field
-    return Field(np_data(f), offset=list(f['off']))
+    return Field(np_data(f), pixelscale=ps, offset=list(f['off']))
+
+def _snap(Fs):
+    """byte-exact snapshot of operand fields: data bytes/shape/dtype, offset, cached extent"""
+    return [(F.data.tobytes(), F.data.shape, F.data.dtype.str, [int(x) for x in F.offset], tuple(int(v) for v in F.extent)) for F in Fs]
+
+def _aliased(results, Fs):
+    """a result that is not itself one of the operand objects must not share memory with an operand"""
+    return any(np.shares_memory(R.data, F.data) for R in results if not any(R is F for F in Fs) for F in Fs)
+
+def _fields_out(results):
+    """observables of result fields: data/offset, cached extent, and the empty-product object as it really is"""
+    out = {'fields': [field_json(x) for x in results if x.size > 0],
+           'extents': [[int(v) for v in x.extent] for x in results if x.size > 0]}
+    emp = [x for x in results if x.size == 0]
+    if emp: out['empty'] = [{'shape': list(x.shape), 'offset': [int(v) for v in x.offset], 'extent': [int(v) for v in x.extent]} for x in emp]
+    return out
+
+def _run_twice(op, Fs):
+    """run `op(Fs)` twice on the SAME operand objects; report the first result, whether operands stayed byte-identical,
+    whether a result aliases an operand, and whether the second call gave the same answer"""
+    before = _snap(Fs)
+    def call():
+        try:
+            r = op(Fs); r = list(r) if isinstance(r, (list, tuple)) else [r]
+            return r, None
+        except Exception as e:
+            return None, {'exc': type(e).__name__, 'msg': str(e)[:200]}
+    r1, e1 = call()
+    mutated1 = _snap(Fs) != before
+    aliased = bool(r1) and _aliased(r1, Fs)
+    o1 = _fields_out(r1) if r1 is not None else e1
+    r2, e2 = call()
+    o2 = _fields_out(r2) if r2 is not None else e2
+    side = {'mutated': mutated1 or _snap(Fs) != before, 'aliased': aliased,
+            'repeat_equal': (o1 == o2) if r1 is not None and r2 is not None else ((e1 or {}).get('exc') == (e2 or {}).get('exc'))}
+    res = dict(o1); res['side'] = side
+    if r1 is not None: res['pixelscale'] = [x.pixelscale for x in r1]
+    return res
 
 def impl(c):
     vlib.import_lentil()
@@ -239,26 +361,49 @@ def impl(c):
                     'shift': [int(x) for x in X.intersection_shift(a, b)], 'center_a': [int(x) for x in X.array_center(a)],
                     'array_extent': [int(x) for x in X.array_extent(tuple(c['sa']), tuple(c['oa']))]}
         if k == 'mul':
-            r = _F(c['a']) * _F(c['b'])
-            return {'fields': [field_json(r)] if r.size > 0 else []}
+            return _run_twice(lambda Fs: Fs[0] * Fs[1], [_F(c['a']), _F(c['b'])])
         if k == 'boundary':
-            return {'extent': [int(x) for x in LF.boundary([_F(f) for f in c['fields']])]}
+            Fs = [_F(f) for f in c['fields']]; before = _snap(Fs)
+            return {'extent': [int(x) for x in LF.boundary(Fs)], 'side': {'mutated': _snap(Fs) != before}}
         if k == 'merge':
-            r = LF._merge([_F(f) for f in c['fields']])
-            return {'fields': [field_json(r)]}
+            return _run_twice(lambda Fs: LF._merge(Fs), [_F(f) for f in c['fields']])
+        if k == 'merge_public':
+            ps = c.get('ps') or [None, None]
+            return _run_twice(lambda Fs: LF.merge(Fs[0], Fs[1], enforce_overlap=c['enforce']),
+                              [_F(c['fields'][0], ps[0]), _F(c['fields'][1], ps[1])])
         if k == 'reduce':
-            r = LF.reduce([_F(f) for f in c['fields']])
-            return {'fields': [field_json(x) for x in r], 'extents': [[int(v) for v in x.extent] for x in r]}
+            return _run_twice(lambda Fs: LF.reduce(Fs), [_F(f) for f in c['fields']])
+        if k == 'overlap':
+            Fs = [_F(f) for f in c['fields']]; before = _snap(Fs)
+            r1 = LF.overlap(Fs); m = _snap(Fs) != before; r2 = LF.overlap(tuple(Fs))
+            return {'overlap': bool(r1), 'is_bool': isinstance(r1, (bool, np.bool_)),
+                    'side': {'mutated': m or _snap(Fs) != before, 'repeat_equal': bool(r1) == bool(r2)}}
         if k == 'insert':
-            out = np_data(c['out']).copy()
-            r = LF.insert(_F(c['field']), out, intensity=c['intensity'], weight=c['weight'])
-            re, im = np.real(r).ravel(), np.imag(r).ravel()
-            # |z**2| goes through hypot: exact integer up to an ulp; anything further off is kept and will disagree
-            rnd = lambda x: int(round(x)) if abs(x - round(x)) < 1e-9 else float(x)
-            return {'out': {'shape': list(r.shape), 're': [rnd(x) for x in re], 'im': [rnd(x) for x in im]},
-                    'same_object': r is out}
+            out = np_data(c['out']).copy(); out0 = out.copy()
+            Ff = _F(c['field']); before = _snap([Ff])
+            rnd = lambda x: int(round(x)) if abs(x - round(x)) < 1e-9 else float(x)   # |z**2| goes through hypot: integer up to an ulp
+            def arr(a):
+                re, im = np.real(a).ravel(), np.imag(a).ravel()
+                return {'shape': list(a.shape), 're': [rnd(x) for x in re], 'im': [rnd(x) for x in im]}
+            try:
+                r = LF.insert(Ff, out, intensity=c['intensity'], weight=c['weight'])
+            except Exception as e:
+                return {'exc': type(e).__name__, 'msg': str(e)[:200], 'target_untouched': bool(np.array_equal(out, out0)),
+                        'side': {'mutated': _snap([Ff]) != before}}
+            res = {'out': arr(out), 'returned': arr(r), 'same_object': r is out,
+                   'side': {'mutated': _snap([Ff]) != before, 'aliased': bool(np.shares_memory(out, Ff.data))}}
+            # same field object into a fresh copy of the target: same increment
+            out2 = out0.copy(); LF.insert(Ff, out2, intensity=c['intensity'], weight=c['weight'])
+            res['side']['repeat_equal'] = bool(np.array_equal(out2, out))
+            return res
     except Exception as e:
         return {'exc': type(e).__name__, 'msg': str(e)[:200]}
+
+def _zf(f):
+    g = to_model_field(f); g['zd'] = len(f['shape']) < 2
+    return g
+
+def _is0d(f): return len(f['shape']) < 2
 
 def requests(c, io):
     k = c['kind']
@@ -266,8 +411,17 @@ def requests(c, io):
         return [{'op': 'extent.pair', 'a': c['a'], 'b': c['b']}, {'op': 'extent.array_extent', 'shape': c['sa'], 'shift': c['oa']}]
     if k == 'mul': return [{'op': 'field.mul', 'a': to_model_field(c['a']), 'b': to_model_field(c['b'])}]
     if k == 'boundary': return [{'op': 'field.boundary', 'fields': [to_model_field(f) for f in c['fields']]}]
-    if k == 'merge': return [{'op': 'field.merge', 'fields': [to_model_field(f) for f in c['fields']]}]
-    if k == 'reduce': return [{'op': 'field.reduce', 'fields': [to_model_field(f) for f in c['fields']]}]
+    if k == 'merge': return [{'op': 'field.mergez', 'fields': [_zf(f) for f in c['fields']]}]
+    if k == 'merge_public':
+        if c.get('ps') and c['ps'][0] != c['ps'][1]: return []          # pixelscale guard: not in the model, see compare
+        return [{'op': 'field.merge_public', 'a': _zf(c['fields'][0]), 'b': _zf(c['fields'][1]), 'enforce': c['enforce']}]
+    if k == 'reduce':
+        r = [{'op': 'field.reducez', 'fields': [_zf(f) for f in c['fields']]}]
+        if not any(_is0d(f) for f in c['fields']):                       # the plain-array model must agree wherever it answers
+            r.append({'op': 'field.reduce', 'fields': [to_model_field(f) for f in c['fields']]})
+        return r
+    if k == 'overlap': return [{'op': 'field.overlap', 'fields': [to_model_field(f) for f in c['fields']]}]
+    if _is0d(c['field']): return []                                     # insert of 0-d data: refused by the implementation
     return [{'op': 'field.insert', 'field': to_model_field(c['field']), 'out': c['out'], 'weight': c['weight'], 'intensity': c['intensity']}]
 
 def _is_one(f): return len(f['shape']) < 2 or list(f['shape']) == [1, 1]
@@ -281,6 +435,10 @@ def _same_fields(c, A, B):
 
 def compare(c, io, mo):
     k = c['kind']
+    if k == 'insert' and _is0d(c['field']):
+        return None if io.get('exc') == 'ValueError' else 'insert of a 0-d field: implementation did not refuse with ValueError'
+    if k == 'merge_public' and not mo:
+        return None if io.get('exc') == 'ValueError' else 'merge of fields with different pixelscale: implementation did not refuse with ValueError'
     m = mo[0]
     if 'exc' in io:
         if m.get('ok'): return f"implementation raised {io['exc']}, model answered"
@@ -295,22 +453,59 @@ def compare(c, io, mo):
         return None
     if k == 'boundary':
         return None if io['extent'] == m['extent'] else f"boundary: impl {io['extent']} model {m['extent']}"
-    if k in ('mul', 'merge', 'reduce'):
+    if k == 'overlap':
+        return None if io['overlap'] == m['overlap'] else f"overlap: impl {io['overlap']} model {m['overlap']}"
+    if k in ('mul', 'merge', 'merge_public', 'reduce'):
         d = _same_fields(c, io['fields'], m['fields'])
         if d: return d
-        if k == 'reduce':
-            # per-field comparison (same grouping): sort by offset
-            key = lambda f: (f['off'], f['shape'])
+        key = lambda f: (f['off'], f['shape'] if len(f['shape']) == 2 else [1, 1])
+        if k != 'mul':
+            # per-field comparison (same grouping), and the same fields are 0-d
             for x, y in zip(sorted(io['fields'], key=key), sorted(m['fields'], key=key)):
                 if _same_fields(c, [x], [y]): return 'grouping differs'
+                if _is0d(x) != bool(y.get('zd')): return f"0-d-ness differs: impl shape {x['shape']} model zd={y.get('zd')}"
+        if k == 'reduce' and len(mo) > 1:
+            m2 = mo[1]
+            if m2.get('ok'):
+                d = _same_fields(c, m['fields'], m2['fields'])
+                if d: return 'plain-array model and 0-d aware model: ' + d
+            elif not any(ext_of(f['shape'], f['off']) == (0, 0, 0, 0) for f in c['fields']):
+                return 'plain-array model refuses where the 0-d aware model answers'
         return None
     if io['out'] != {kk: m['out'][kk] for kk in ('shape', 're', 'im')}: return 'inserted arrays differ'
     return None
 
 # ------------------------------------------------------------------------------------------ oracle (real code only)
+def _side(k, io):
+    """operands byte-identical afterwards, result shares no memory with an operand, same call twice = same answer"""
+    sd = io.get('side') or {}
+    if sd.get('mutated'): return f'{k} modified an operand (data/offset/extent not byte-identical afterwards)'
+    if sd.get('aliased'): return f'{k}: the result shares memory with an operand'
+    if sd.get('repeat_equal') is False: return f'{k}: the same call on the same operands gave a different answer the second time'
+    return None
+
+def _ref_groups(es):
+    """independent re-statement of the grouping of reduce/overlap: repeatedly merge the first pair (in combinations order) of
+    groups whose boxes intersect; a merged box is the bounding box of its members with the max side never below 0"""
+    gs = [([e], e) for e in es]
+    while True:
+        for m, n in itertools.combinations(range(len(gs)), 2):
+            if _overlap(gs[m][1], gs[n][1]):
+                mem = gs[m][0] + gs[n][0]
+                box = (min(e[0] for e in mem), max(0, max(e[1] for e in mem)), min(e[2] for e in mem), max(0, max(e[3] for e in mem)))
+                gs[m] = (mem, box); gs.pop(n); break
+        else:
+            return gs
+
+def _origin_refusal(fs):
+    """documented scope: _merge of a group whose box is the single origin pixel raises iff some member is a (1,1) array"""
+    return all(ext_of(f['shape'], f['off']) == (0, 0, 0, 0) for f in fs) and any(not _is0d(f) for f in fs)
+
 def oracle(c, io):
     """the property's own statement evaluated on the implementation's result, with an independent reference"""
     k = c['kind']
+    sd = _side(k, io)
+    if sd: return sd
     if k == 'extent':
         if 'exc' in io: return f"extent query raised {io['exc']}"
         a, b = c['a'], c['b']
@@ -340,6 +535,20 @@ def oracle(c, io):
         # bounding box of the occupied pixels; documented caveat (boundary_is_bbox_general): rmax/cmax never below 0
         want = [min(p[0] for p in px), max(0, max(p[0] for p in px)), min(p[1] for p in px), max(0, max(p[1] for p in px))]
         return None if io['extent'] == want else f"boundary {io['extent']} is not the bounding box {want} (max side raised to 0)"
+    if k == 'overlap':
+        if 'exc' in io: return f"overlap raised {io['exc']}: {io.get('msg')}"
+        if not io['is_bool']: return 'overlap did not return a bool'
+        es = [ext_of(f['shape'], f['off']) for f in c['fields']]
+        if len(es) == 2:
+            want = bool({(r, q) for r in range(es[0][0], es[0][1] + 1) for q in range(es[0][2], es[0][3] + 1)} &
+                        {(r, q) for r in range(es[1][0], es[1][1] + 1) for q in range(es[1][2], es[1][3] + 1)})
+        else:
+            want = len(_ref_groups(es)) <= 1
+        return None if io['overlap'] == want else f'overlap of {len(es)} fields is {io["overlap"]}, reference says {want}'
+    # cached extent of every (non-empty) result field must be the extent of its shape and offset
+    if 'fields' in io:
+        for f, e in zip(io['fields'], io['extents']):
+            if list(ext_of(f['shape'], f['off'])) != e: return f'{k}: cached extent {e} of a result differs from its shape/offset'
     if k == 'mul':
         a, b = c['a'], c['b']
         if 'exc' in io: return f"product raised {io['exc']}: {io.get('msg')}"
@@ -355,36 +564,51 @@ def oracle(c, io):
         got = canvas(io['fields'], box)
         if not np.array_equal(got, ca * cb): return 'product is not the pointwise product of the embeddings'
         return None
-    if k in ('merge', 'reduce'):
+    if k in ('merge', 'merge_public', 'reduce'):
         fs = c['fields']
+        es = [ext_of(f['shape'], f['off']) for f in fs]
+        if k == 'merge_public':
+            ps = c.get('ps') or [None, None]
+            if ps[0] != ps[1]:
+                return None if io.get('exc') == 'ValueError' else 'merge of fields with different pixelscale was not refused'
+            if c['enforce'] and not _overlap(es[0], es[1]):
+                return None if io.get('exc') == 'ValueError' else 'merge(enforce_overlap=True) of non-overlapping fields was not refused'
         if 'exc' in io:
-            es = [ext_of(f['shape'], f['off']) for f in fs]
-            if all(e == (0, 0, 0, 0) for e in es) or (k == 'reduce' and sum(e == (0, 0, 0, 0) for e in es) >= 2): return None   # documented scope
+            if k == 'reduce':
+                org = [f for f in fs if ext_of(f['shape'], f['off']) == (0, 0, 0, 0)]
+                if len(org) >= 2 and _origin_refusal(org): return None          # documented scope
+            elif _origin_refusal(fs): return None                               # documented scope
             return f"{k} raised {io['exc']}: {io.get('msg')}"
         box = box_of([fs, io['fields']])
         if not np.array_equal(canvas(io['fields'], box), canvas(fs, box)): return f'{k} changed the total field'
+        if k == 'merge_public' and io.get('pixelscale') != [(c.get('ps') or [None])[0]]: return 'merge lost the pixelscale'
         if k == 'reduce':
             for x, y in itertools.combinations(io['extents'], 2):
                 if _overlap(x, y): return f'reduced fields overlap: {x} {y}'
-            for f, e in zip(io['fields'], io['extents']):
-                if list(ext_of(f['shape'], f['off'])) != e: return 'cached extent differs from shape/offset'
+            if len(io['fields']) != len(_ref_groups(es)): return f"reduce returned {len(io['fields'])} fields, reference grouping has {len(_ref_groups(es))}"
         return None
     # insert
-    if 'exc' in io: return f"insert raised {io['exc']}: {io.get('msg')}"
     f, o = c['field'], c['out']
+    if _is0d(f):
+        # documented scope: insert cannot place 0-d data (it has no shape to index); it must refuse and leave the target alone
+        if io.get('exc') != 'ValueError': return 'insert of a 0-d field did not refuse with ValueError'
+        return None if io.get('target_untouched') else 'refused insert modified the target'
+    if 'exc' in io: return f"insert raised {io['exc']}: {io.get('msg')}"
+    if not io['same_object']: return 'insert did not return the array it was given'
+    if io['returned'] != io['out']: return 'returned array differs from the target array'
     S0, S1 = o['shape']
     box = (-(S0 // 2), -(S0 // 2) + S0 - 1, -(S1 // 2), -(S1 // 2) + S1 - 1)
     e = canvas([f], box)
     add = ((e.real ** 2 + e.imag ** 2) if c['intensity'] else e) * c['weight']
     want = np_data(o) + add
-    got = np_data(io['out'])
-    if not np.array_equal(got, want): return 'insert did not add exactly the part of the embedding inside the array'
+    got = np_data(io['out'])          # the array that was passed in, not the return value
+    if not np.array_equal(got, want): return 'insert did not add exactly the part of the embedding inside the array (target array after the call)'
     return None
 
 def shrink(c):
     """smaller variants of a failing case"""
     k = c['kind']
-    if k in ('merge', 'reduce') and len(c['fields']) > 1:
+    if k in ('merge', 'reduce', 'overlap') and len(c['fields']) > 1:
         for i in range(len(c['fields'])):
             d = dict(c); d['fields'] = c['fields'][:i] + c['fields'][i + 1:]; yield d
     if k == 'insert' and c.get('weight') != 1:
